@@ -51,11 +51,13 @@ _RULES = {
     "ERROR-OWNER": rules_struct.rule_error_owner,
     "INFO-EXTENT": rules_struct.rule_info_extent,
     "NO-MERGE": rules_more.rule_no_merge,
+    "NOT-A-KIND": rules_more.rule_not_a_kind,
     "BSEARCH-MONO": rules_more.rule_bsearch_mono,
     "DOC-FLOW": rules_more.rule_doc_flow,
     "SLICE-FIRST": rules_more.rule_slice_first,
     "CURSOR-CMP": rules_more.rule_cursor_cmp,
     "COMMENT-LEX": rules_units.rule_comment_lex,
+    "LEX-MUNCH": rules_units.rule_lex_munch,
     "STRIP-REBUILD": rules_more.rule_strip_rebuild,
     "DIAG-FLAG": rules_more.rule_diag_flag,
     "IDENT-RANGE": rules_more.rule_ident_range,
